@@ -154,7 +154,7 @@ def scenario_coq(sc, out, fuel, tol, min_margin):
     return (f"(mkCase {gen} {F.boolean(sc['udi'])} {F.boolean(sc['stop_at_rounds'])} {F.boolean(sc['call_comps'])} "
             f"{F.opt(sc.get('name'), F.ustr)} {F.opt(sc.get('instance'), F.z)} {rhythm_coq(sc['rhythm'])} "
             f"{F.q(Fraction(sc.get('delta', 0)))} {F.q(Fraction(sc['horizon']))} {events} "
-            f"{F.opt(lt, F.q)} ({fuel // 100} * 100) {F.q(tol)} {F.q(min_margin)} {trace} {outcome} {ctor})")
+            f"{F.opt(lt, F.q)} {F.q(Fraction(sc.get('origin', 0)))} ({fuel // 100} * 100) {F.q(tol)} {F.q(min_margin)} {trace} {outcome} {ctor})")
 
 
 # ----------------------------------------------------------------------------- timing helpers
@@ -395,6 +395,7 @@ def rhythm_session(rng, kind, *, n=None, nrows=None):
 class RhythmSessionSuite(SystemSuite):
     name = "rhythm_sessions"
     fuel = 60000
+    coq_cap = {"quick": 40}
 
     def scenarios(self, rng, tier):
         for i in range(60 if tier == "quick" else 600):
@@ -801,6 +802,10 @@ class GateSuite(SystemSuite):
         if inits and inits[-1][2] != n:
             return f"the rhythm was initialised for {inits[-1][2]} bells, the tower has {n}"
         return None
+
+    def oracle_C03(self, case, out):
+        """covers: bells beyond the generator's rows keep the same last places in every row"""
+        return self.oracle_C17(case, out) if "trace" in out else None
 
     def oracle_C01(self, case, out):
         return StartStopSuite.oracle_C01(self, {"oracle": {"n": case["oracle"]["final_n"]}}, {"trace": [it for it in out.get("trace", []) if Fraction(it[0]) >= Fraction(case["oracle"]["look2"])]}) if "trace" in out else None
